@@ -86,6 +86,10 @@ def gen_spec(rnd, boundary=None):
     spec = {'kill_latency': rnd.choice([0.0, 0.0, 0.0005, 0.002]), 'watchers': ws, 'steps': steps}
     # transient spawn faults: the n-th process creation fails (with max_retry 1 the spawn is given up), or the
     # before_spawn hook refuses / fails once
+    if rnd.random() < .12:
+        # max_age configured but far away (nothing expires during the history), with and without variance
+        w['max_age'] = 100000
+        w['max_age_variance'] = rnd.choice([0, 0, 30])
     f = rnd.random()
     if f < .08:
         w['max_retry'] = 1
